@@ -370,9 +370,10 @@ func Run(c *core.Ctx) error {
 
 	// ---- deep: chains of 64 .. 20000 containers ---------------------------------
 	if c.WantGen("deep") {
+		td := c.Trace("c02_deep", "Trace_Value") // a trace (and a TLC) of its own: the spines are long
 		for cas, dc := range deepCases(c.Thorough()) {
 			if c.Want("deep", cas) {
-				deepValue(c, t, cas, dc, c.Pick(130, 300))
+				deepValue(c, td, cas, dc, c.Pick(130, 300))
 			}
 		}
 	}
@@ -380,6 +381,10 @@ func Run(c *core.Ctx) error {
 	// ---- rand: random streams --------------------------------------------------
 	if c.WantGen("rand") {
 		nh := c.Pick(120, 2200)
+		tr := t
+		if c.Thorough() { // hundreds of MB of events: a trace (and a TLC) of its own
+			tr = c.Trace("c02_rand", "Trace_Value")
+		}
 		for cas := 0; cas < nh; cas++ {
 			if !c.Want("rand", cas) {
 				continue
@@ -403,7 +408,7 @@ func Run(c *core.Ctx) error {
 				}
 				nodes = append(nodes, n)
 			}
-			stream(c, t, "rand", cas, nodes)
+			stream(c, tr, "rand", cas, nodes)
 			if cas < 2 {
 				c.Sample(core.Ev{"gen": "rand", "case": cas, "values": len(nodes), "first": trunc(valgen.Proj(nodes[0]))})
 			}
